@@ -60,6 +60,10 @@ type InheritCfg struct {
 	// branch of a loop over nothing): they are defined all the same, and
 	// rendered only where the root places them.
 	Guard int `json:"guard,omitempty"`
+	// AliasSelf: the aliased block is imported "with a as a"; AliasSwap: two
+	// used blocks are imported under each other's names.
+	AliasSelf bool `json:"alias_self,omitempty"`
+	AliasSwap bool `json:"alias_swap,omitempty"`
 }
 
 var blockNames = []string{"a", "b", "c", "d"}
@@ -96,11 +100,30 @@ func BuildInherit(c *InheritCfg) *m.Program {
 				u := &m.N{K: "use", X: m.EStr("u")}
 				if c.UseAlias >= 0 {
 					u.Pairs = [][2]string{{blockNames[c.UseAlias], "x" + blockNames[c.UseAlias]}}
+					if c.AliasSelf {
+						u.Pairs[0][1] = blockNames[c.UseAlias]
+					}
+				} else if c.AliasSwap {
+					var used []string
+					for ni := 0; ni < c.Names; ni++ {
+						if c.UseNames&(1<<uint(ni)) != 0 {
+							used = append(used, blockNames[ni])
+						}
+					}
+					if len(used) >= 2 {
+						u.Pairs = [][2]string{{used[0], used[1]}, {used[1], used[0]}}
+					}
 				}
-				// (not onto the name that the other alias of this tag renames: stick
-				// applies the aliases of one use tag in map order)
-				if lvl < len(c.FrameAlias) && c.FrameAlias[lvl] > 0 && c.FrameAlias[lvl]-1 != c.UseAlias {
-					u.Pairs = append(u.Pairs, [2]string{"frame", blockNames[c.FrameAlias[lvl]-1]})
+				// (also onto the name that the other alias of this tag renames; not
+				// onto a name that another alias of this tag already gives)
+				if lvl < len(c.FrameAlias) && c.FrameAlias[lvl] > 0 {
+					taken := false
+					for _, pr := range u.Pairs {
+						taken = taken || pr[1] == blockNames[c.FrameAlias[lvl]-1]
+					}
+					if !taken {
+						u.Pairs = append(u.Pairs, [2]string{"frame", blockNames[c.FrameAlias[lvl]-1]})
+					}
 				}
 				t.Body = append(t.Body, u)
 			}
@@ -127,7 +150,7 @@ func BuildInherit(c *InheritCfg) *m.Program {
 					// the loop's variable and metadata
 					b.Body = append(b.Body, m.NPrint(m.EName("i")), m.NText("/"), m.NPrint(m.EAttr(m.EName("loop"), "index")), m.NPrint(m.EAttr(m.EName("loop"), "last")))
 				}
-				if c.UseAt == lvl && c.UseAlias == ni {
+				if c.UseAt == lvl && c.UseAlias == ni && !c.AliasSelf {
 					b.Body = append(b.Body, m.NPrint(&m.E{K: "blockfn", A: []*m.E{m.EStr("x" + name)}}))
 				}
 				b.Body = append(b.Body, m.NText(")"))
@@ -233,6 +256,11 @@ func GenInherit(t *rapid.T) *InheritCfg {
 				}
 			}
 		}
+	}
+	if c.UseAlias >= 0 {
+		c.AliasSelf = rapid.IntRange(0, 3).Draw(t, "aliasSelf") == 0
+	} else if c.UseAt >= 0 {
+		c.AliasSwap = rapid.IntRange(0, 2).Draw(t, "aliasSwap") == 0
 	}
 	c.ExtendsExpr = rapid.IntRange(0, 2).Draw(t, "ext")
 	c.Nested = rapid.Bool().Draw(t, "nested")
